@@ -46,7 +46,36 @@ SUSPICIOUS_MORE = [
     ['extdelta', '\\entry[b]\\auto[x]{y}\\textbf{z}'],
     ['extdelta', '\\begin{defenvb}[o]\\entry{a}{b}\\textbf{c}\\end{defenvb}\\textbf{d}'],
 ]
-POOL = SUSPICIOUS + SUSPICIOUS_MORE + [
+# names that only the shared "unknown" specification objects of a context answer for: the same
+# specification object serves different names in different documents
+UNKNOWN_NAMES = [
+    ['default', 'p \\begin{unkenva}a $x$ \\unkmaca{b}\\end{unkenva} q'],
+    ['default', 'r \\begin{unkenvb}c \\unkmacb d\\end{unkenvb} s'],
+    ['default', '\\begin{itemize}\\item \\begin{unkenvc}e\\end{unkenvc}\\end{itemize}\\unkmaca'],
+    ['extended', '\\begin{unkenva}a\\unkmaca\\end{unkenva}'],
+    ['extended', '\\begin{unkenvb}a\\unkmacb\\end{unkenvb}'],
+    ['extdelta', '\\begin{unkenva}\\entry[a]b\\end{unkenva}'],
+    ['extdelta', '\\begin{unkenvb}\\entry[a]b\\end{unkenvb}'],
+]
+SUSPICIOUS_MORE = SUSPICIOUS_MORE + UNKNOWN_NAMES
+
+
+def grammar_pool(n=48, seed=20260104):
+    """documents drawn from the document grammar (deterministic): the pool is not limited to what
+    was thought suspicious in advance"""
+    from .. import docgrammar
+    from ..engine import hyp_run as _hr
+    got = []
+
+    def one(doc):
+        signame, src = doc
+        if 0 < len(src) <= 120 and [docgrammar.CTX_OF[signame], src] not in got:
+            got.append([docgrammar.CTX_OF[signame], src])
+    _hr(docgrammar.source_strategy(('default', 'every'), depth=2), one, n, seed)
+    return got
+
+
+POOL = SUSPICIOUS + SUSPICIOUS_MORE + grammar_pool() + [
     ['every', '\\mt+\\mt \\md<a>\\md x'],
     ['every', '\\mstar*\\ms \\mo[a[b]c]'],
     ['every', '\\begin{eenv}[o]{m}body\\end{eenv}\\begin{emath}x\\end{emath}'],
